@@ -1,6 +1,6 @@
 (* C14 — Maximum Packet Size is honoured in both directions.  Statements only; proofs in
-   Conn/Session.v.  Nothing else may be added to this file. *)
-From MQ Require Import Base.Prelude Framing.Framing Conn.Types Conn.ConnRecord Conn.Step Corr.ConnTrace Conn.Session.
+   Conn/Session.v and Conn/SizeInv.v.  Nothing else may be added to this file. *)
+From MQ Require Import Base.Prelude Framing.Framing Conn.Types Conn.ConnRecord Conn.Step Corr.ConnTrace Conn.Run Conn.Session Conn.SizeInv.
 
 (* a v5.0 packet of ANY kind larger than the peer's Maximum Packet Size is never passed to the
    transport, in any state, for every limit and every size *)
@@ -40,10 +40,34 @@ Theorem C14_oversize_inbound : forall g c fh body pr,
 Proof. exact oversize_inbound. Qed.
 Print Assumptions C14_oversize_inbound.
 
-(* C14_partial: "every ESend of every call on a v5.0 connection fits the limit" as ONE statement
-   over all send paths (automatic responses included) is decided by the monitor mon_c14 on the
-   implementation's traces and by the correspondence; the theorems above cover the direct path,
-   the rewritten path and the stored path. *)
+(* THE statement over all send paths: EVERY call of the API, in every state, for every input — user
+   sends of every kind, automatic PUBACK/PUBREC/PUBREL/PUBCOMP/PINGRESP, error DISCONNECTs, the
+   PINGREQ of the timer, CONNACK refusals, retransmission of the store, publishes rewritten by alias
+   mapping: every v5.0 packet requested for sending fits the Maximum Packet Size in force when the
+   call returns ([fits]: ESend p with k_ver p = V50 has k_size p <= limit).  The limit changes only
+   when a CONNECT or CONNACK is received — the new limit then governs what that call sends, in
+   particular the retransmissions — and when the transport is reported closed (nothing is sent). *)
+Theorem C14_step_sends_fit : forall g c o,
+  match step g c o with
+  | Ok (c', evs, _) => all_fit (c_mps_send c') evs = true
+  | Panic _ => True
+  end.
+Proof. exact step_sends_fit. Qed.
+Print Assumptions C14_step_sends_fit.
+
+(* for the calls that do not change the limit the same holds with the limit before the call, e.g. send() *)
+Theorem C14_send_fits_current_limit : forall g c p,
+  match do_send g c p with
+  | Ok (c', e) => c_mps_send c' = c_mps_send c /\ all_fit (c_mps_send c) e = true
+  | Panic _ => True
+  end.
+Proof. exact do_send_SZ. Qed.
+Print Assumptions C14_send_fits_current_limit.
+
+(* over histories of any length, from any state *)
+Theorem C14_every_history_fits : forall g ops c, history_fits g c ops.
+Proof. exact every_history_fits. Qed.
+Print Assumptions C14_every_history_fits.
 
 Example C14_nonvacuous :
   let g := mkCfg RClient 65535 2 in
@@ -51,3 +75,9 @@ Example C14_nonvacuous :
   let p := mkPkt 3 V50 0 0 false false [116] None 0 0 5 false 0 false 0 None None None None None in
   match dispatch_send g c p with Ok (_, e) => e = [EError E_PACKET_TOO_LARGE] | Panic _ => False end.
 Proof. vm_compute. reflexivity. Qed.
+
+(* [fits] is not vacuous: it rejects an oversize v5.0 send and accepts one at the limit *)
+Example C14_fits_nonvacuous :
+  let p := mkPkt 3 V50 0 0 false false [116] None 0 0 5 false 0 false 0 None None None None None in
+  fits 4 (ESend p None) = false /\ fits 5 (ESend p None) = true /\ all_fit 4 [ENotify p; EClose] = true.
+Proof. vm_compute. repeat split; reflexivity. Qed.
